@@ -189,7 +189,10 @@ Item(obj, key) ==
          ELSE IF key.v = "last" /\ RangeLen(obj) > 0 THEN IntV(obj.b)
          ELSE Undef
     [] obj.t = "str" /\ key.t = "str" ->
-         IF key.v = "size" THEN IntV(Len(obj.v)) ELSE Undef   \* first/last of a string: UNSPECIFIED
+         IF key.v = "size" THEN IntV(Len(obj.v))
+         ELSE IF key.v \in {"first", "last"} THEN Err("UNSPEC")   \* see UNSPECIFIED.md
+         ELSE Undef
+    [] obj.t = "str" /\ key.t = "int" -> Err("UNSPEC")             \* indexing a string
     [] OTHER -> Undef
 
 \* sequence coercion for loops: arrays, ranges, hashes as [key, value] pairs;
